@@ -688,6 +688,40 @@ let () =
              | "RESULT" :: ("panic" | "err") :: rest -> Printf.printf "PROP %s C09 fail %s\n" c.id (String.concat " " rest)
              | _ -> ()) c.lines
          with e -> Printf.printf "DIFF %s step=0 driver-exception %s\n" c.id (Printexc.to_string e))) (read_cases path)
+  | [_; "front"; path] ->
+      (* option vectors -> the configuration the Coq model of the CLI computes, as a harness case line *)
+      let ic = open_in path in
+      (try while true do
+           let l = input_line ic in
+           if String.length l > 0 && l.[0] <> '#' then begin
+             let h = kv l in
+             let g k = Hashtbl.find h k in
+             let optn s = if s = "-" then None else Some (n_of_hex (Printf.sprintf "%Lx" (Int64.of_string ("0u" ^ s)))) in
+             let kind = function
+               | "all" -> KAll | "bitflip" -> KBitflip | "boundary" -> KBoundary | "offbyone" -> KOffbyone
+               | "stringlen" -> KStringlen | "character" -> KCharacter | "memoindex" -> KMemoindex
+               | "typeconfusion" -> KTypeconfusion | x -> failwith ("mutator kind " ^ x) in
+             let a = { a_protocol = optn (g "protocol"); a_seed = optn (g "seed");
+                       a_min = (match optn (g "min") with Some x -> x | None -> default_min);
+                       a_max = (match optn (g "max") with Some x -> x | None -> default_max);
+                       a_mutators = (if g "mutators" = "-" then [] else List.map kind (String.split_on_char ',' (g "mutators")));
+                       a_rate = (if g "rate" = "-" then default_rate else n_of_hex (g "rate"));
+                       a_unsafe = (g "unsafe" = "1"); a_ext = (g "ext" = "1"); a_buf = (g "buf" = "1");
+                       a_samples = default_samples } in
+             match cli_config a with
+             | None -> Printf.printf "NOCONFIG %s\n" (g "id")
+             | Some c ->
+                 let mname = function
+                   | MBitflip -> "bitflip" | MBoundary -> "boundary" | MOffByOne -> "offbyone" | MStringLen -> "stringlen"
+                   | MCharacter -> "character" | MMemoIndex u -> if u then "memoindex:1" else "memoindex:0"
+                   | MTypeConf u -> if u then "typeconf:1" else "typeconf:0" in
+                 Printf.printf "id=%s v=%d min=%s max=%s rate=%s unsafe=%d ext=%d buf=%d muts=%s src=seed:%s\n" (g "id")
+                   (int_of_n (vnum c.c_version)) (Int64.to_string (n_to_int64 c.c_min) |> fun s -> if s.[0] = '-' then Printf.sprintf "%Lu" (n_to_int64 c.c_min) else s)
+                   (Printf.sprintf "%Lu" (n_to_int64 c.c_max)) (let hx = hex_of_n c.c_rate in String.make (16 - String.length hx) '0' ^ hx)
+                   (if c.c_unsafe then 1 else 0) (if c.c_ext then 1 else 0) (if c.c_buf then 1 else 0)
+                   (if c.c_mutators = [] then "-" else String.concat "," (List.map mname c.c_mutators)) (g "seed")
+           end
+         done with End_of_file -> close_in ic)
   | [_; "vocab"] ->
       (* per protocol: the opcode bytes of the model's row (= the regenerated row, by SrcEquiv), with the protocol that introduced each *)
       List.iter (fun vi ->
